@@ -122,7 +122,7 @@ class WrapperTemplate:
             boost::archive::text_iarchive in_archive(in_archive_stream);
             Shared output(new {full_name}());
             in_archive >> *output;
-            out[0] = wrap_shared_ptr(output,"{namespace}.{class_name}", false);
+            out[0] = wrap_shared_ptr(output,"{matlab_name}", false);
         """),
                                                      prefix='  ')
 
